@@ -1331,9 +1331,18 @@ def gd1(ctx, R):
     for rn in reads:
         _env, guards = sy.env_at(rn.ast)
         guarded = any(same_channel(g) for g in guards)
-        R.check(guarded, "tdms_segment.ContiguousDataReader._read_channel_data_chunk::`%s`" % rn.text()[:50], fi.where(rn.ast),
-                "data is read only under `obj.path == channel_path`",
-                "`%s` reads data of an object that is not the requested channel: the bytes fetched are no longer bounded by the request" % rn.text()[:70])
+        in_loop = any(any(x is rn.ast for x in ast.walk(h.ast)) for h in heads)
+        key_ = "tdms_segment.ContiguousDataReader._read_channel_data_chunk::`%s`" % rn.text()[:50]
+        if guarded:
+            R.ok(key_, fi.where(rn.ast), "data is read only under `obj.path == channel_path`")
+        elif any(other_channel(g) for g in guards) or in_loop:
+            # read for an object of the loop over the chunk's objects that is not (known to be) the requested one
+            R.violation(key_, fi.where(rn.ast), "`%s` reads data of an object that is not the requested channel: the bytes fetched are no longer bounded by "
+                        "the request" % rn.text()[:70])
+        else:
+            R.unrecognised(key_, fi.where(rn.ast), "the read is outside the loop over the chunk's objects (the object and its position are found first, e.g. by a "
+                           "helper): that it is the requested channel's object was not followed")
+            continue
         # after the requested channel was read the loop ends
         r = cfg.reach([m for m, k in rn.succ if k not in ("exc", "uncaught")], follow_exc=False)
         R.check(not any(h in r for h in heads), "tdms_segment.ContiguousDataReader._read_channel_data_chunk::stops after the channel", fi.where(rn.ast),
@@ -1442,5 +1451,23 @@ def ch1(ctx, R):
             nbytes = v[1]
         elif v[0] == "len" and v[1][0] == "const" and isinstance(v[1][1], (bytes, str)):
             nbytes = len(v[1][1])
-    R.check(len(reads) == 1 and nbytes == 4, "%s::constant 4 bytes" % vq, vs.where(),
+    if not reads:
+        # the read lives in a helper the check calls: follow one level
+        from .flow import resolve_call as _rc_
+        for c_ in walk_body(vs.node):
+            if isinstance(c_, ast.Call):
+                for g_, _k in _rc_(prog, vs, vs.cls, c_):
+                    if g_.module is vs.module and g_.cls is None:
+                        sg_ = Sym(prog, g_, None)
+                        for r_ in walk_body(g_.node):
+                            if isinstance(r_, ast.Call) and isinstance(r_.func, ast.Attribute) and r_.func.attr == "read":
+                                reads.append(r_)
+                                if r_.args:
+                                    e_, _gg = sg_.env_at(r_)
+                                    v_ = sg_.expr(r_.args[0], e_)
+                                    nbytes = v_[1] if v_[0] == "const" else nbytes
+    if not reads:
+        R.unrecognised("%s::constant 4 bytes" % vq, vs.where(), "no read call in the segment start check or the helper it calls")
+    else:
+      R.check(len(reads) == 1 and nbytes == 4, "%s::constant 4 bytes" % vq, vs.where(),
             "the per-segment overhead is one 4-byte tag read", "the segment start check reads %s" % [unparse(r) for r in reads])
